@@ -131,61 +131,16 @@ func c05(c *core.Ctx, r *core.Report) {
 	if l == nil {
 		return
 	}
-	ev := l.ev
+	pop := l.populator
 	r.Count("role_functions", 5+len(l.injectors))
 
-	// ---- R1(a) Populator: property post-processing before any dependency resolution / injection
-	pop := l.populator
-	var propsSites, workSites []*ssa.Call
-	for _, ci := range core.Calls(pop) {
-		call, ok := ci.(*ssa.Call)
-		if !ok {
-			continue
+	// ---- R1(a) Populator: decision table (property stage first, candidates resolved through the accessor, then injected)
+	populateRules(c, r, l, func(row string) string {
+		if row == "error" {
+			return "C05.R3"
 		}
-		rs := ev.SiteReach(call)
-		switch {
-		case rs.has(evDep) || rs.has(evInject):
-			workSites = append(workSites, call)
-		case rs.has(evProps):
-			propsSites = append(propsSites, call)
-		}
-	}
-	props := oneSite(r, "C05.R1a", "props-site@"+core.FnName(pop), "site reaching PostProcessProperties", propsSites, c, pop)
-	r.Floor("C05.R1a", "dependency-resolution / injection sites in the populator", len(workSites), 1)
-	if props != nil {
-		for _, d := range workSites {
-			r.Check(core.OnNilErrEdge(props, d), "C05.R1a", "props-before-dependencies@"+core.FnName(pop), c.Pos(d.Pos()),
-				"property post-processing (configuration values, candidate selection) succeeded before any dependency is resolved or injected")
-		}
-	}
-	for _, inj := range l.injectors {
-		var deps, injects []*ssa.Call
-		for _, ci := range core.Calls(inj) {
-			if call, ok := ci.(*ssa.Call); ok {
-				switch ev.Direct(call.Common()) {
-				case evDep:
-					deps = append(deps, call)
-				case evInject:
-					injects = append(injects, call)
-				}
-			}
-		}
-		for _, is := range injects {
-			okAll := len(deps) > 0
-			for _, d := range deps {
-				feeds := false
-				for _, o := range core.Origins(is.Common().Args[1], nil) {
-					if o == core.ResultValue(d, 0) {
-						feeds = true
-					}
-				}
-				if !feeds || !core.Dominates(d, is) && !core.BlockReaches(d.Block(), is.Block()) {
-					okAll = false
-				}
-			}
-			r.Check(okAll, "C05.R1a", "deps-before-inject@"+core.FnName(inj), c.Pos(is.Pos()), "the injected list is built only from results of the cache accessor resolved earlier in the same function")
-		}
-	}
+		return "C05.R1a"
+	})
 
 	// ---- R1(b) EarlyExposer
 	ex := l.exposer
@@ -557,4 +512,29 @@ func c05ShortCircuit(c *core.Ctx, r *core.Report, l *lifecycleRoles) {
 			}
 		}
 	}
+}
+
+// populateRules reports the populator's decision table under the given rule ids.
+func populateRules(c *core.Ctx, r *core.Report, l *lifecycleRoles, ruleOf func(row string) string) {
+	cons := "populate-table@" + core.FnName(l.populator)
+	prs, n, und := populateTable(c, l)
+	r.Count("populate_table_runs", n)
+	first := ""
+	for _, k := range []string{"from-accessor", "props-first", "re-entrant", "error"} {
+		if first == "" {
+			first = ruleOf(k)
+		}
+	}
+	if und != "" {
+		r.Undecided(first, cons, c.FnPos(l.populator), "abstract interpretation left the model: "+und)
+		return
+	}
+	smallModelCheck(c, r, first, cons, l.populator, 3)
+	need := map[string]string{}
+	for k, v := range populateRows {
+		if ruleOf(k) != "" {
+			need[k] = v
+		}
+	}
+	prs.report(c, r, l.populator, ruleOf, cons, need)
 }
